@@ -328,7 +328,9 @@ func genNearTie(run *emit.Run) Op {
 	r := run.Rng
 	n := 3 + r.Intn(4)
 	// step of the chain in units of 1e-18 relative to a span of 1.0: 6e-7 (seeded C08-D's tolerance is 1e-6), and other scales
-	step := []int64{600_000_000_000, 600_000_000_000, 400_000_000_000, 900_000_000_000, 600_000_000, 600_000, 6}[r.Intn(7)]
+	// ... up to 6e-2 (a "within 10 %" comparison); n <= 6 keeps the chain below the far validator
+	step := []int64{600_000_000_000, 600_000_000_000, 400_000_000_000, 900_000_000_000, 600_000_000, 600_000, 6,
+		600_000_000_000_000, 6_000_000_000_000_000, 60_000_000_000_000_000}[r.Intn(10)]
 	col := 1 + r.Intn(5) // which metric carries the chain
 	if col == 4 {
 		col = 1 // execution time is whole numbers
@@ -603,9 +605,7 @@ func emitCases(run *emit.Run, script []Op, outs [][]stepOut, envs []twinEnv) {
 				}
 				emitPurgeCase(run, script[:i], o, nontrivial)
 			case "lightnode":
-				if k != 0 {
-					continue
-				}
+				// every twin's stored vesting period against the model (the model has no zone to look at)
 				emitLightCase(run, script, i, o, nontrivial)
 			case "publish":
 				if k != 0 {
